@@ -144,3 +144,6 @@ impl NodeOverride {
 
 /// In-memory construction of `ClusterState` and tablet bookkeeping (real code paths).
 pub use crate::cluster::verif_state_hooks as cluster;
+
+/// The real stream-id bookkeeping and connection router, drivable without a session.
+pub use crate::network::verif_connection_hooks as connection;
